@@ -106,6 +106,13 @@ def run(ctx):
             for rep in range(6 if ctx.thorough else 2):
                 p = problems.gen_problem(rng2, A, alg_name=nm, box=rng2.choice(["fixed", "fixed", "finite"]), maxeval=rng2.choice([5, 20]), with_constraints=(rep % 2 == 0))
                 p["munge"] = 1
+                if rep == 1 and p["box"] == "fixed":
+                    # a rejected call (start off a fixed coordinate), maximizing: the wrappers' temporaries must not stay in the object
+                    fixed = [i for i, (a, b) in enumerate(zip(p["lb"], p["ub"])) if a == b]
+                    if fixed:
+                        p["x0"] = list(p["x0"])
+                        p["x0"][fixed[0]] = p["lb"][fixed[0]] + 0.5
+                        p["max"] = 1
                 if rng2.random() < 0.5:
                     p["copy"] = 1
                 if rng2.random() < 0.3:
